@@ -67,7 +67,7 @@ def replay(ctx, scns, name):
 def rows_of(s, evs):
     rows = []
     for k, (cd, ev) in enumerate(zip(s["conns"], evs), 1):
-        row = {"sid": s["sid"], "k": k, "kind": s["kind"], "role": cd["role"], "cd": cd, "ev": ev}
+        row = {"sid": s["sid"], "k": k, "n": len(s["conns"]), "kind": s["kind"], "role": cd["role"], "cd": cd, "ev": ev}
         if cd["role"] == "target":
             row["env"] = s["cfg"]["env"]
             row["pred0"], row["pred1"] = s["pred0"], s["pred1"]
@@ -129,6 +129,8 @@ def spec_label(sd):
     s = sd["base"]
     if sd["custom"]:
         s += "(custom" + "".join("-" + d.replace("Extension", "") for d in sd["drop"]) + ")"
+    if sd.get("alpn", "spec") != "spec":
+        s += "(alpn-%s)" % sd["alpn"]
     if not sd["omitpsk"]:
         s += "(noOmitEmptyPsk)"
     if sd["custom"] and not sd["skipnil"]:
@@ -137,7 +139,7 @@ def spec_label(sd):
 
 
 def srv_label(srv):
-    return "srv%d%s%s" % (srv["max"], "+hrr" if srv["hrr"] else "", "+cookie%d" % srv["cookie"] if srv.get("cookie") else "")
+    return "srv%d%s%s" % (srv["max"], "+hrr" if srv["hrr"] else "", "+cookie%d" % srv["cookie"] if srv.get("cookie") else "") + ("+nonce%d" % srv["nonce"] if srv.get("nonce") else "")
 
 
 def first_failure(ev):
